@@ -299,8 +299,11 @@ def check_templates_closed(ctx, repo):
     imported = set()
     cg = repo.cls('CodeGenerator').methods['generate_code']
     for n in ast.walk(cg.node):
-        if isinstance(n, ast.Constant) and isinstance(n.value, str) and 'import ' in n.value:
-            head = n.value.split('def ')[0]
+        if isinstance(n, ast.Constant) and isinstance(n.value, str) and 'import ' in n.value and 'def ' not in n.value:
+            # the import block of the module: text made of import statements only.  What a driver
+            # template imports in its own text serves that driver (and the blocks spliced into it),
+            # not the other half, which may be generated without it
+            head = n.value
             try:
                 t = ast.parse(__import__('textwrap').dedent(head))
             except SyntaxError:
@@ -316,6 +319,13 @@ def check_templates_closed(ctx, repo):
     for t in repo.templates():
         if t.tree is not None and not t.defines():
             block_assigned |= {x.id for x in ast.walk(t.tree) if isinstance(x, ast.Name) and isinstance(x.ctx, ast.Store)}
+    driver_imports = set()
+    for t in repo.templates():
+        if t.tree is not None and t.defines():
+            for s_ in ast.walk(t.tree):
+                if isinstance(s_, (ast.Import, ast.ImportFrom)):
+                    for a in s_.names:
+                        driver_imports.add((a.asname or a.name).split('.')[0])
     for t in repo.templates():
         if t.tree is None:
             ctx.undecided(rule, t.func, 'template at line %d' % t.lineno, 'does not parse with holes: %s' % t.error, t.lineno)
@@ -344,6 +354,7 @@ def check_templates_closed(ctx, repo):
         is_driver = bool(t.defines())
         if not is_driver:
             free -= driver_locals
+            free -= driver_imports       # a block runs inside a driver and sees what that driver's text imports
         else:
             free -= block_assigned          # names bound by the blocks spliced into the driver
         st = 'template %s@%s' % (t.func.qual.split('.')[-1], 'driver ' + ','.join(t.defines()) if is_driver else 'block')
